@@ -13,7 +13,10 @@ Next == /\ s.run
 Spec == Init /\ [][Next]_vars
 
 \* when a program of the family has stopped, it ended normally and printed exactly the declared sequence
-Expected == ~s.run => (s.stat.k = "end" /\ hist = s.prog.tag.expect)
+Expected == ~s.run => /\ hist = s.prog.tag.expect
+                      /\ s.stat.k = s.prog.tag.endk
+                      /\ s.stat.k = "error" => /\ s.stat.code = s.prog.tag.code
+                                               /\ s.prog.tag.line = -1 \/ s.stat.line = s.prog.tag.line
 \* no execution of a family program leaves the fragment, and stacks stay bounded
 InFragment == ~s.frag
 Bounded == Len(s.fors) <= 3 /\ Len(s.gosubs) <= 5 /\ Len(s.whiles) <= 3
